@@ -30,6 +30,28 @@ fn ring_now() -> BTreeSet<[u8; 16]> {
     w.cluster.nodes.iter().filter(|n| n.in_ring).map(|n| n.host_id).collect()
 }
 
+/// (token, owner) pairs of the mock's ring.
+fn ring_tokens_now() -> BTreeSet<(i64, [u8; 16])> {
+    let w = world::world();
+    w.cluster
+        .nodes
+        .iter()
+        .filter(|n| n.in_ring)
+        .flat_map(|n| n.tokens.iter().map(move |t| (*t, n.host_id)))
+        .collect()
+}
+
+/// (token, owner) pairs of the published state's ring.
+fn published_tokens(session: &scylla::client::session::Session) -> BTreeSet<(i64, [u8; 16])> {
+    session
+        .get_cluster_state()
+        .replica_locator()
+        .ring()
+        .iter()
+        .map(|(t, n)| (t.value(), *n.host_id.as_bytes()))
+        .collect()
+}
+
 #[derive(Clone, Debug)]
 struct Plan {
     initial: usize,
@@ -106,7 +128,7 @@ async fn main(plan: Plan) -> Outcome {
     for _ in 0..plan.events {
         evs.push((
             tape::range("c19:at", 0, span),
-            tape::weighted("c19:kind", &[3, 3, 2, 2, 2, 1]),
+            tape::weighted("c19:kind", &[3, 3, 2, 2, 2, 1, 2]),
             tape::choose("c19:pick", 64) as usize,
             tape::chance("c19:with_event", 2, 3),
         ));
@@ -244,6 +266,77 @@ async fn main(plan: Plan) -> Outcome {
                     let n = members[pick % members.len()];
                     w.cluster.nodes[n].rack = format!("r{}", pick % 5);
                     w.fault(Fault::Topology);
+                }
+                6 => {
+                    // A member's token ownership changes (same membership, same labels).
+                    let members: Vec<usize> = (0..total).filter(|n| w.cluster.nodes[*n].in_ring).collect();
+                    let n = members[pick % members.len()];
+                    let k = w.cluster.nodes[n].tokens.len() as i64;
+                    w.cluster.nodes[n].tokens.push((n as i64) * 1000 + 500 + 13 * (k + 1) + (pick as i64));
+                    if pick % 3 == 0 && w.cluster.nodes[n].tokens.len() > 2 {
+                        w.cluster.nodes[n].tokens.remove(0);
+                    }
+                    w.fault(Fault::Topology);
+                    w.log(&format!("tokens_changed node={n}"));
+                    w.probe("tokens_changed");
+                    TOPO_VERSION.fetch_add(1, std::sync::atomic::Ordering::SeqCst);
+                    if with_event {
+                        let ip = w.cluster.nodes[n].ip;
+                        w.broadcast_event("TOPOLOGY_CHANGE", wire::body_event_topology("NEW_NODE", ip, 9042));
+                    }
+                    // Once the client has completely re-read system.peers (and this node is
+                    // not the control host, whose tokens come from system.local) in a fetch
+                    // that started after the change, the published ring must own the new tokens.
+                    let seen = CHAOS_COUNT.load(std::sync::atomic::Ordering::SeqCst);
+                    let t_event = w.now();
+                    let session = session2.clone();
+                    let late = late2.clone();
+                    // The control host's own tokens come from system.local, which a fetch may
+                    // have read before it started on system.peers: not judged for that node.
+                    let is_control_host = w
+                        .conns
+                        .iter()
+                        .any(|c| !c.srv_closed && !c.client_closed && !c.cql.registered.is_empty() && c.node == n);
+                    tokio::spawn(async move {
+                        if is_control_host {
+                            return;
+                        }
+                        let mut fetched_at = None;
+                        for _ in 0..100 {
+                            world::sleep_ns(200 * MS).await;
+                            if CHAOS_COUNT.load(std::sync::atomic::Ordering::SeqCst) != seen {
+                                return;
+                            }
+                            let w = world::world();
+                            if let Some(f) = w.peers_fetches.iter().find(|f| f.0 >= t_event && f.1 <= w.now()) {
+                                fetched_at = Some(f.1);
+                                break;
+                            }
+                        }
+                        let Some(fetched_at) = fetched_at else { return };
+                        let wait = if BLACKHOLES.load(std::sync::atomic::Ordering::SeqCst) == 0 { 3 } else { 40 } * SEC;
+                        let t_wait = world::now_ns();
+                        let mut ok = false;
+                        while world::now_ns() - t_wait < wait {
+                            world::sleep_ns(500 * MS).await;
+                            if CHAOS_COUNT.load(std::sync::atomic::Ordering::SeqCst) != seen {
+                                return;
+                            }
+                            if published_tokens(&session) == ring_tokens_now() {
+                                ok = true;
+                                break;
+                            }
+                        }
+                        FETCH_JUDGED.fetch_add(1, std::sync::atomic::Ordering::SeqCst);
+                        if !ok {
+                            late.lock().unwrap().push(format!(
+                                "token ownership of node {n} changed at {} ms; the client completely re-read system.peers by {} ms; {} quiet seconds later the published ring still differs from the cluster's",
+                                t_event / MS,
+                                fetched_at / MS,
+                                wait / SEC
+                            ));
+                        }
+                    });
                 }
                 4 => {
                     // Event flood.
@@ -390,6 +483,12 @@ async fn main(plan: Plan) -> Outcome {
             .iter()
             .map(|n| *n.host_id.as_bytes())
             .collect();
+        if expected == published && published_tokens(&session) != ring_tokens_now() {
+            out.violation(
+                "c19.published_state_stale",
+                "after a successful refresh the published ring's (token, owner) pairs differ from the cluster's".into(),
+            );
+        }
         if expected != published {
             out.violation(
                 "c19.published_state_stale",
